@@ -4,7 +4,9 @@
 # The simulator compiles every Hydro program into a dylib through a trybuild project that it
 # derives from this package at *run time*:
 #   * project + target dir: $CARGO_TARGET_DIR/hydro_trybuild/vsim  (i.e. $VERIF_ROOT/target/sim/..)
-#   * source crate: found from CARGO_MANIFEST_DIR (this directory)
+#   * source crate: found from CARGO_MANIFEST_DIR = ./progs (crate `vsim`, the staged programs);
+#     the process also runs with that directory as cwd because trybuild canonicalises the
+#     relative path dependencies against the cwd
 # RUSTFLAGS is dropped for the run: hydro_lang's trybuild driver disables its per-program build
 # cache when RUSTFLAGS is set (every program would be recompiled on every run).  The harness
 # binary itself was already built with `--cfg hydro_project_hydro_verif` by build.sh.
@@ -15,7 +17,7 @@ here="$(cd "$(dirname "$0")" && pwd)"
 root="${VERIF_ROOT:-$(cd "$here/../.." && pwd)}"
 export VERIF_ROOT="$root"
 export CARGO_TARGET_DIR="${CARGO_TARGET_DIR:-$root/target/sim}"
-export CARGO_MANIFEST_DIR="$here"
+export CARGO_MANIFEST_DIR="$here/progs"
 export CARGO_NET_OFFLINE=true
 export TMPDIR="$root/work/sim/tmp"
 mkdir -p "$TMPDIR"
@@ -28,7 +30,7 @@ for a in "$@"; do
   prev="$a"
 done
 log="$root/work/sim/stderr-$prop.log"
-cd "$here"
+cd "$here/progs"
 "$CARGO_TARGET_DIR/release/sim" "$@" 2>"$log"
 rc=$?
 if [ $rc -eq 2 ] && grep -q "unexpected recompilation in final build" "$log"; then
